@@ -5,6 +5,7 @@ integer once its argument can be converted to `int64_t` — for any double arith
 (These proofs unfold the generated definitions: a change of the `qn == 0` guard in the C++ breaks them.)
 -/
 import EngineModel.Gen.TrackUtilsGen
+import EngineModel.Api.GuardedUtils
 
 namespace EngineModel.Gen.TrackUtils
 open EngineModel
@@ -85,5 +86,31 @@ theorem gen_hires_some (ops : Cxx.FloatOps F) (n : Nat) (x : F) (v : Int) (h : o
     have hu := gen_u64OfInt_ne_zero q hq0 hqin
     simp only [hz, Bool.false_eq_true, if_false, Cxx.U64.div, hu, Option.bind_some]
     exact ⟨_, rfl⟩
+
+/-- the arithmetic of `waveform_quantisation_number` on an in-range integer -/
+theorem qn_arith (v : Int) (hin : Cxx.inI64 v = true) :
+    ∃ q, ((Cxx.I64.div v 210).bind fun d => Cxx.I64.mul d 2) = some q ∧ Cxx.inI64 q = true := by
+  -- reuse `gen_qn_some` with the identity conversion
+  obtain ⟨q, hq, hqin⟩ := gen_qn_some (⟨fun x => some x, id, fun n => (n : Int), fun a _ => a⟩ : Cxx.FloatOps Int) v v rfl hin
+  refine ⟨q, ?_, hqin⟩
+  unfold waveform_quantisation_number at hq
+  simpa using hq
+
+/-- `GuardedUtils.extentsSiteG` never ends in `ub` when the rate converts to `int64_t` and the "no extents"
+test covers a zero quantisation number. -/
+theorem extentsSiteG_ok (zero : Nat → Int → F64.Bits → Bool)
+    (hz : ∀ n qn r, qn = 0 → zero n qn r = true)
+    (toI64 : F64.Bits → Option Int) (n : Nat) (r : F64.Bits) (t : Int) (ht : toI64 r = some t)
+    (hin : Cxx.inI64 t = true) : Api.GuardedUtils.extentsSiteG zero toI64 n r = .ok () := by
+  obtain ⟨q, hq, hqin⟩ := qn_arith t hin
+  unfold Api.GuardedUtils.extentsSiteG
+  rw [ht]
+  simp only [hq]
+  by_cases h0 : q = 0
+  · rw [if_pos (hz n q r h0)]
+  · split
+    · rfl
+    · have hu := gen_u64OfInt_ne_zero q h0 hqin
+      simp [Cxx.U64.div, hu]
 
 end EngineModel.Gen.TrackUtils
